@@ -410,76 +410,3 @@ Proof.
   rewrite (H1 c M4a). cbn [andb]. now apply IH.
 Qed.
 
-(* ---- one call, all calls ----------------------------------------------------------------------------- *)
-Lemma exc_eqb_eq a b : exc_eqb a b = true -> a = b.
-Proof. destruct a, b; cbn; congruence. Qed.
-
-Lemma log_eqb_fst a : forall b, log_eqb a b = true -> map fst a = map fst b.
-Proof.
-  unfold log_eqb. induction a as [|x a IH]; intros [|y b]; cbn [list_eqb map]; try discriminate; auto.
-  intros H. apply andb_true_iff in H. destruct H as [H1 H2].
-  apply andb_true_iff in H1. destruct H1 as [H1 _].
-  apply andb_true_iff in H1. destruct H1 as [H1 _]. apply Z.eqb_eq in H1.
-  now rewrite H1, (IH b H2).
-Qed.
-
-Lemma call_ok_core tbl st c st' :
-  PInv st -> call_wf tbl c = true -> call_ok tbl st c = Some st' ->
-  PInv st' /\ call_holds_core (p_nh st) c = true /\
-  p_nh st' = p_nh st + Z.of_nat (List.length (k_log c)).
-Proof.
-  intros HP HW. unfold call_ok.
-  set (st1 := pop_call tbl st c).
-  destruct (exc_eqb (k_exc c) (p_exc st1) && log_eqb (k_log c) (rev (p_log st1)) &&
-            tree_match (p_store st1) 0 (k_tree c)) eqn:HB; [|discriminate].
-  intros [= <-].
-  apply andb_true_iff in HB. destruct HB as [HB HT].
-  apply andb_true_iff in HB. destruct HB as [HE HL].
-  unfold call_wf in HW. apply andb_true_iff in HW. destruct HW as [_ HF].
-  assert (HP0 : PInv (PS (p_store st) (p_nh st) (p_nm st) [] XNone)).
-  { destruct HP as [A B C D]. constructor; auto. }
-  assert (HL0 : LogOK (p_nh st) (PS (p_store st) (p_nh st) (p_nm st) [] XNone)).
-  { split; cbn; [reflexivity|lia]. }
-  destruct (pop_rules_ok tbl c (eff_nest c) (p_nh st) (k_rules c) (k_truth c) (k_seqs c)
-                         _ HP0 HL0 (or_introl eq_refl) HF) as (A & [B1 B2] & C).
-  fold (pop_call tbl st c) in A, B1, B2, C. fold st1 in A, B1, B2, C.
-  pose proof (log_eqb_fst _ _ HL) as HLf.
-  assert (HLen : List.length (k_log c) = List.length (p_log st1)).
-  { rewrite <- (map_length fst (k_log c)), HLf, map_length, rev_length. reflexivity. }
-  split; [exact A|]. split.
-  - unfold call_holds_core. apply exc_eqb_eq in HE. rewrite HE, C. cbn [p_exc exc_after].
-    destruct (first_notdir (k_truth c)); cbn [exc_eqb andb]; rewrite HLf, B1; cbn [andb];
-      destruct A as [(used & sp & HI & _) _ _ _]; eapply tree_match_links; eauto.
-  - rewrite HLen. exact B2.
-Qed.
-
-Lemma run_calls_core tbl cs : forall st,
-  PInv st -> forallb (call_wf tbl) cs = true -> run_calls tbl st cs = true ->
-  core_from (p_nh st) cs = true.
-Proof.
-  induction cs as [|c cs IH]; intros st HP HW HR; [reflexivity|].
-  cbn [forallb] in HW. apply andb_true_iff in HW. destruct HW as [HW1 HW2].
-  cbn [run_calls] in HR. destruct (call_ok tbl st c) as [st'|] eqn:E; [|discriminate].
-  destruct (call_ok_core tbl st c st' HP HW1 E) as (A & B & C).
-  cbn [core_from]. rewrite B. cbn [andb]. rewrite <- C. now apply IH.
-Qed.
-
-Theorem accepts_core c : wf_b c = true -> accepts c = true -> holds_core_b c = true.
-Proof.
-  unfold wf_b, accepts, holds_core_b. intros HW HA.
-  apply andb_true_iff in HW. destruct HW as [HW _].
-  apply andb_true_iff in HW. destruct HW as [_ HW].
-  exact (run_calls_core (c_names c) (c_calls c) ps_init PInv_init HW HA).
-Qed.
-
-(* the full property contains the proved part *)
-Lemma holds_from_core tbl cs : forall prev nh,
-  holds_from tbl prev nh cs = true -> core_from nh cs = true.
-Proof.
-  induction cs as [|c cs IH]; intros prev nh H; [reflexivity|].
-  cbn [holds_from] in H. apply andb_true_iff in H. destruct H as [H1 H2].
-  cbn [core_from]. rewrite (IH _ _ H2), andb_true_r.
-  unfold call_holds in H1. unfold call_holds_core.
-  repeat (apply andb_true_iff in H1; destruct H1 as [H1 ?]).
-  repeat (apply andb_true_iff; split); assumption.
-Qed.
